@@ -39,11 +39,23 @@ EXIT_EXCS = [Boom, KeyboardInterrupt, BaseBoom, GeneratorExit, SystemExit]
 
 def gen_case(rng, params):
     n_handles, depth, ops, closed = 1, 0, [], False
+    used = []
     for _ in range(rng.randint(3, 25)):
         h = rng.randrange(n_handles)
         k = rng.random()
-        if k < 0.32 and not closed:
-            ops.append(f"io:{h}")
+        if k < 0.08 and not closed:
+            # a read_iter() generator of that handle: created (and advanced once) / advanced again later — an iterator
+            # that is already running is I/O through the handle it was made from
+            ops.append(rng.choice([f"it+:{h}", f"it.:{h}", f"it.:{h}"]))
+        elif k < 0.32 and not closed:
+            # which call: drawn per op, biased to the kinds used earlier in the history (a call made before the
+            # ownership change must not have left anything behind that answers for the handle afterwards)
+            if used and rng.random() < 0.5:
+                c = rng.choice(used)
+            else:
+                c = rng.randrange(len(IO_CALLS))
+            used.append(c)
+            ops.append(f"io:{h}:{c}")
         elif k < 0.42:
             ops.append(f"closed:{h}")
         elif k < 0.52 and depth < 4:
@@ -86,6 +98,24 @@ def cfg_str(ch):
     return f"c/{p}/{hx(bytes(ch._write_blacklist))}/{ds}/{sd}/{ch.slow_send_chunksize}"
 
 
+def lean_line(line):
+    """the Lean side knows one kind of I/O: `io:<h>` (which call it is, and whether it is made through a running
+    iterator, must not matter)"""
+    out = []
+    for op in line.split():
+        f = op.split(":")
+        out.append(f"io:{f[1]}" if f[0] in ("io", "it+", "it.") else op)
+    return " ".join(out)
+
+
+def model_request(line, impl):
+    return KIND + " " + lean_line(line)
+
+
+def spec_line(line):
+    return lean_line(line)
+
+
 def run_impl(line):
     with vclock.CLOCK:
         return _run(line)
@@ -96,6 +126,7 @@ def _run(line):
     io = mockio.ScriptIO([(i, b"a\r\n") for i in range(3000)])
     handles = [tch.Channel(io)]
     frames = []     # generator-based context managers of open borrows
+    iters = {}      # handle index -> its running read_iter() generator
     out = []
     rot = 0
     for op in line.split():
@@ -125,8 +156,25 @@ def _run(line):
                 else:
                     ch = handles[h]
                     k = f[0]
-                    if k == "io":
-                        call = IO_CALLS[rot % len(IO_CALLS)]; rot += 1
+                    if k in ("it+", "it."):
+                        it = iters.get(h)
+                        if k == "it+" or it is None:
+                            it = iters[h] = ch.read_iter(timeout=None)
+                        try:
+                            try:
+                                next(it)
+                            except StopIteration:
+                                it = iters[h] = ch.read_iter(timeout=None)
+                                next(it)
+                        except BaseException:
+                            iters.pop(h, None)       # a generator that raised is finished
+                            raise
+                        res = "ok"
+                    elif k == "io":
+                        if len(f) > 2:
+                            call = IO_CALLS[int(f[2]) % len(IO_CALLS)]
+                        else:
+                            call = IO_CALLS[rot % len(IO_CALLS)]; rot += 1
                         if call == "read": ch.read(1, timeout=1.0)
                         elif call == "write": ch.write(b"x")
                         elif call == "send": ch.send("y")
